@@ -216,6 +216,7 @@ def extract(repo: Path) -> dict:
     facts["engine_other_uses"] = pk["engine_other_uses"]
     facts["helpers"] = sorted(helpers)
     facts["perm_table"] = evaluate_table(repo)
+    facts["on_demand_table"] = evaluate_table(repo, on_demand=True)
     facts["safe_names"], facts["safe_call1"] = evaluate_function_table(repo)
     facts["reg_table"] = evaluate_registration_table(repo)
     facts["name_table"] = evaluate_name_table(repo)
@@ -437,8 +438,10 @@ def evaluate_function_table(repo: Path):
         return [], []
 
 
-def evaluate_table(repo: Path):
-    """Evaluate the REAL ceiling test on a complete finite domain: every ceiling (None or a subset of a 3-tag
+def evaluate_table(repo: Path, on_demand: bool = False):
+    """(on_demand=True: the declarations are PROPERTIES of the tool that build a fresh one-shot iterator - generator
+    expression, map, iter(tuple), iter(set) by turns - from a manifest at every access, and every engine is asked
+    TWICE: one row per request.)  Evaluate the REAL ceiling test on a complete finite domain: every ceiling (None or a subset of a 3-tag
     universe) x every declaration style (required_capabilities / capabilities each absent or a subset), through the
     public entry point execute_tool_call with a counting tool body.  -> list of rows (allowed, req, caps, ran) or None
     when the code cannot be evaluated (fail closed).  The universe holds one tag of each kind a declaration may carry:
@@ -485,10 +488,58 @@ def evaluate_table(repo: Path):
             def complete_with_tools(self, prompt, tools=None, config=None):
                 self.n += 1
                 return self.complete(prompt), ([ToolCall(id="c", name="t", arguments={})] if self.n == 1 else [])
-        for al in subsets:
-            for req in subsets:
-                for caps in subsets:
+        kinds = [lambda m: (x for x in m), lambda m: map(lambda x: x, m), lambda m: iter(tuple(m)), lambda m: iter(set(m))]
+        for ia, al in enumerate(subsets):
+            for ir, req in enumerate(subsets):
+                for ic, caps in enumerate(subsets):
                     ran = []
+                    if on_demand:
+                        mk = kinds[(ia + ir + ic) % len(kinds)]
+
+                        class OnDemand:
+                            name = "t"
+                            description = "t"
+                            parameters_schema = {"type": "object", "properties": {}}
+
+                            @property
+                            def required_capabilities(self, _req=req, _mk=mk):
+                                if _req is None:
+                                    raise AttributeError("required_capabilities")
+                                return _mk([C[i] for i in _req])
+
+                            @property
+                            def capabilities(self, _caps=caps, _mk=mk):
+                                if _caps is None:
+                                    raise AttributeError("capabilities")
+                                return _mk([C[i] for i in _caps])
+
+                            def execute(self, *a, **k):
+                                ran.append(1)
+                                return 1
+                        t2 = OnDemand()
+                        per = [[], []]
+                        m = Mitochondria(allowed_capabilities=None if al is None else {C[i] for i in al}, silent=True)
+                        m.engulf_tool(t2)
+                        for k in (0, 1):
+                            ran.clear()
+                            r1 = m.execute_tool_call(ToolCall(id="c", name="t", arguments={}))
+                            per[k].append((bool(ran), bool(r1.success)))
+                        for pw in (MetabolicPathway.OXIDATIVE, None):
+                            m = Mitochondria(allowed_capabilities=None if al is None else {C[i] for i in al}, silent=True)
+                            m.engulf_tool(t2)
+                            for k in (0, 1):
+                                ran.clear()
+                                r2 = m.metabolize("t()", pw)
+                                per[k].append((bool(ran), bool(r2.success)))
+                        m = Mitochondria(allowed_capabilities=None if al is None else {C[i] for i in al}, silent=True)
+                        m.engulf_tool(t2)
+                        for k in (0, 1):
+                            ran.clear()
+                            Nucleus(provider=Pushy()).transcribe_with_tools("p", m)
+                            per[k].append(bool(ran))
+                        for k in (0, 1):
+                            rows.append((al, req, caps, *per[k]))
+                        continue
 
                     class T:
                         name = "t"
@@ -533,6 +584,10 @@ def render(facts: dict) -> str:
     table = "none" if rows is None else "some [\n  " + ",\n  ".join(
         f"⟨{ol(a)}, {ol(r)}, {ol(c)}, {b(cl[0])}, {b(cl[1])}, {b(mt[0])}, {b(mt[1])}, {b(au[0])}, {b(au[1])}, {b(lp)}⟩"
         for (a, r, c, cl, mt, au, lp) in rows) + "]"
+    orows = facts.get("on_demand_table")
+    odtable = "none" if orows is None else "some [\n  " + ",\n  ".join(
+        f"⟨{ol(a)}, {ol(r)}, {ol(c)}, {b(cl[0])}, {b(cl[1])}, {b(mt[0])}, {b(mt[1])}, {b(au[0])}, {b(au[1])}, {b(lp)}⟩"
+        for (a, r, c, cl, mt, au, lp) in orows) + "]"
     rrows = facts.get("reg_table")
     regtable = "none" if rrows is None else "some [\n  " + ",\n  ".join(
         f"({a}, {c}, {b(sm)}, [{', '.join(map(str, d1))}], [{', '.join(map(str, d2))}], {b(h)}, {b(r)})"
@@ -572,6 +627,11 @@ def engineOtherUses : List String := [{", ".join(chr(34) + x + chr(34) for x in 
     ForeignCapability.NET - (each `none` = absent / unrestricted, or a subset): did the tool body run, and did the
     result report success?  `none` = the code could not be evaluated. -/
 def permTable : Option (List PermRow) := {table}
+
+/-- the same evaluation for declarations COMPUTED ON DEMAND: `required_capabilities` / `capabilities` are properties of
+    the tool that build a fresh one-shot iterator (generator expression, `map`, `iter(tuple)`, `iter(set)` by turns) at
+    every access; every engine is asked twice, one row per request (first, second, first, second, ...). -/
+def onDemandTable : Option (List PermRow) := {odtable}
 
 /-- the REAL registration entry points evaluated on every (first style, second style, same callable?, first declaration,
     second declaration) under the empty ceiling - styles 0 = constructor `tools=`, 1 = `engulf_tool(SimpleTool)`,
